@@ -84,16 +84,44 @@ func (bc *boundsCtx) term(v ssa.Value) lterm {
 	case *ssa.BinOp:
 		switch x.Op {
 		case token.ADD, token.SUB:
+			// fixed-width arithmetic wraps: for types narrower than 64 bits (and for unsigned subtraction) the
+			// mathematical value is only the result when it fits, which is decided under the path conditions
+			wrapAware := func(math lterm) lterm {
+				bits := intBits(x.Type())
+				uns := isUnsigned(x.Type())
+				if bits == 0 || (bits >= 64 && !(uns && math.c < 0)) {
+					return math
+				}
+				me := lterm{bc.name(v), 0}
+				lo, hi := int64(0), int64(1)<<62-1
+				if bits < 63 {
+					if uns {
+						hi = int64(1)<<uint(bits) - 1
+					} else {
+						lo, hi = -(int64(1) << uint(bits-1)), int64(1)<<uint(bits-1)-1
+					}
+				} else if !uns {
+					return math
+				}
+				bc.z.addLE(lconst(lo), me)
+				bc.z.addLE(me, lconst(hi))
+				bc.deferred = append(bc.deferred, func(z *Zone, _ *ssa.BasicBlock) {
+					if z.entLE(lconst(lo), math) && z.entLE(math, lconst(hi)) {
+						z.addEQ(me, math)
+					}
+				})
+				return me
+			}
 			if cv, isC := constInt(x.Y); isC {
 				a := bc.term(x.X)
 				if x.Op == token.SUB {
 					cv = -cv
 				}
-				return lterm{a.v, a.c + cv}
+				return wrapAware(lterm{a.v, a.c + cv})
 			}
 			if cv, isC := constInt(x.X); isC && x.Op == token.ADD {
 				a := bc.term(x.Y)
-				return lterm{a.v, a.c + cv}
+				return wrapAware(lterm{a.v, a.c + cv})
 			}
 			// t = a - b with both variable: t >= 0 not known; t <= a when b >= 0
 			me := lterm{bc.name(v), 0}
